@@ -3,7 +3,7 @@ import itertools
 from ..core import Family
 from .. import plevel, plevel_global
 
-PROPERTY_FILES = ["C05", "C05_Global", "C05_Logic"]
+PROPERTY_FILES = ["C05", "C05_Global", "C05_Logic", "C05_Arith"]
 TRUSTED_BASE = [
     "Coq 8.16.1 kernel (coqc full .vo build)",
     "hand-written model of props/*.rs, views.rs, agenda.rs, search::propagate (coq/Model/{Dom,Views,PropDefs,Propagate}.v, Model/Props/*.v): modelled, not verified; tied by this run's differential",
@@ -98,3 +98,7 @@ FAMILIES = [
 # group Logic (bool_and/or/not/xor, int_*_reif, all_equal, between, if_then_else): families defined next to its generators
 from . import c05_logic as _logic
 FAMILIES += _logic.FAMILIES
+
+# group Arith (abs, min, max, mul, modulo): the models are the code repaired by fix commits a87256b / eab5616
+from . import c05_arith as _arith
+FAMILIES += _arith.FAMILIES
